@@ -243,6 +243,14 @@ func VerifPointStep() {
 		verifnd.Reach("cast")
 	}
 	vPtInv(pt, "post")
+	// no index entry of the live point has been handed back to the pool: the next entries taken
+	// from the pool (two, as InitPt would for another point) are different objects
+	g1 := input.GetMeta(ast.Nil, input.PtField)
+	g2 := input.GetMeta(ast.Nil, input.PtField)
+	for _, m := range pt.Meta {
+		verifnd.Assert(m != g1 && m != g2, "index-entry-not-in-the-pool")
+	}
+	verifnd.Assert(g1 != g2, "pool-hands-out-distinct-entries")
 	for i, kk := range vPtKeys {
 		if !touched[kk] {
 			verifnd.Assert(vSnapSame(pt, kk, pre[i]), "frame:untouched-key-unchanged")
